@@ -6,6 +6,14 @@ THEOREMS = ["Cog.Builder." + t for t in [
     "C17_builder_omit_removes", "C17_builder_rename_only_renames", "C17_builder_frame_inplace",
     "C17_builder_duplicate_shape", "C17_builder_duplicate_identical_partial",
     "C17_builder_duplicate_identical_counterexample",
+    "C17_option_omit_removes", "C17_option_rename_only_renames", "C17_option_add_comments_only_comments",
+    "C17_option_duplicate_shape", "C17_option_duplicate_identical_partial", "C17_option_duplicate_identical_counterexample",
+    "C17_array_to_append_same_target", "C17_map_to_index_same_target", "C17_unfold_boolean_same_target",
+    "C17_struct_fields_as_options_same_targets", "C17_struct_fields_as_arguments_same_targets",
+    "C17_disjunction_as_options_same_target",
+    "C17_builder_rule_preserves", "C17_option_rule_preserves", "C17_seq", "C17_seq_counterexample",
+    "C17_seq_counterexample_shared_pointer", "C17_seq_counterexample_unfold_after_index",
+    "C17_frame_norules_partial", "C17_frame_norules_counterexample", "C17_frame_counterexample_shared_pointer",
 ]]
 PROPOSED = os.path.join(WORK, "proposed_findings_C17.json")
 WITNESSES = ["dup-option-default", "dup-builder-default", "dismissed", "rename-args-constraint",
